@@ -27,8 +27,7 @@ def build_engine(name):
             core.sh("ocamlfind ocamlopt -O3 -w -a %s %s driver.ml -o drv" % (" ".join(mlis), " ".join(mls)), cwd=out, timeout=900)
             open(stamp, "w").write(hv)
         hdir = os.path.join(src, "harness")
-        core.sh("cp /repo/go.sum go.sum", cwd=hdir)
-        p = core.sh(["go", "build", "-tags", "verif", "-o", os.path.join(out, "hm"), "."], cwd=hdir, env=core.GOENV, check=False)
+        p = core.go_build(hdir, os.path.join(out, "hm"))
         if p.returncode != 0:
             return None, (p.stdout or b"").decode("utf8", "replace")[-2000:]
     return out, ""
